@@ -144,6 +144,13 @@ def run_scenario(d, y, scenario, user_structure, simple, r, idx):
         meas["neutral_sum"] = lib.frac(sum(cnv.get(i, 0) for i in range(cnr.start, cnr.end)))
     except Exception as e:
         return {"harness_error": f"{type(e).__name__}: {e}"}
+    if idx % 2 == 1:
+        # history: an exome-profile run of the same database earlier in the process (it switches copy-number calling off
+        # for that run only); whatever it answers is ignored
+        try:
+            genotype(ypath, bam, "exome", output_file=None, genome="hg19")
+        except Exception:
+            pass
     out_path = os.path.join(d, f"o{idx}_{scenario}.simple") if simple else None
     outcome = {}
     fh = open(out_path, "w") if out_path else None
